@@ -126,6 +126,9 @@ def valid_case(case):
 
     if not ok_parts(case["parts"], RAWLITS if raw else LITS):
         return False
+    if case["style"] == "raw" and any(p[0] == "lit" and any(x[0] == '"' for x in p[1]) for p in case["parts"]):
+        return False  # a bare quote in the literal text of fr"..." ends the string (decided on the structure: the scanner
+        # below loses count of the braces of f-strings nested inside fields)
     # the Python rendering must itself be fine where the closing quotes are concerned
     inner = pt[pt.index('"""') + 3:-3]
     if inner.endswith('"') or '"""' in inner or inner.endswith("\\"):
